@@ -54,7 +54,7 @@ Project(c) ==
       hasPublicKeyMember |-> FALSE,
       meta |-> [published |-> c.published,
                 deactivated |-> c.deactivated,
-                hasUpdateCommitment |-> c.commitments, hasRecoveryCommitment |-> c.commitments,
+                hasUpdateCommitment |-> c.commitments \in {"both", "ucOnly"}, hasRecoveryCommitment |-> c.commitments \in {"both", "rcOnly"},
                 hasAnchorOrigin |-> c.origin,
                 hasCanonicalId |-> c.published, hasEquivalentId |-> c.published,
                 hasCreated |-> c.published,
@@ -62,8 +62,8 @@ Project(c) ==
                 hasUpdated |-> c.versionId /\ c.updatedTime # "none"]]   \* also when the update was anchored at the creation time
 
 Opts == [base : BOOLEAN, methodCtx : BOOLEAN]
-Flags == [published : BOOLEAN, deactivated : BOOLEAN, commitments : BOOLEAN, origin : BOOLEAN, versionId : BOOLEAN, updatedTime : {"none", "later", "same"}]
-DefaultFlags == [published |-> TRUE, deactivated |-> FALSE, commitments |-> TRUE, origin |-> FALSE, versionId |-> TRUE, updatedTime |-> "later"]
+Flags == [published : BOOLEAN, deactivated : BOOLEAN, commitments : {"both", "none", "rcOnly", "ucOnly"}, origin : BOOLEAN, versionId : BOOLEAN, updatedTime : {"none", "later", "same"}]
+DefaultFlags == [published |-> TRUE, deactivated |-> FALSE, commitments |-> "both", origin |-> FALSE, versionId |-> TRUE, updatedTime |-> "later"]
 
 KeySeqs == UNION {[1..n -> KeySpecs] : n \in 0..MaxKeys}
 Mk(keys, nsvc, naka, o, f) ==
